@@ -334,3 +334,76 @@ prop('C10',
      'messageq_init and on one from MESSAGEQ_VAR_INIT.',
      level_note='Sequential histories only (concurrency is C04). Exhaustive histories are too short to wrap deep queues; '
      'the random histories do.')
+
+# ----------------------------------------------------------- C01 / C02 / C03
+FIB = [R + 'fibre.c', R + 'list.c', R + 'messageq.c'] + UTIL
+SCHED_ASSUME = ['models/refsched.h (about 200 lines, arrays and counters) is the reading of the statements of C01-C03; '
+                'time in the model is 64-bit and never wraps, the library is given t mod 2^32',
+                'fibre_verif_reset() (guarded hook) re-initialises the static scheduler between histories',
+                'scope of the statement: at most one unsatisfied fibre_timeout per dispatch; time stays within 2^31 '
+                'ticks of every pending due time']
+prop('C01',
+     'c01: random histories of 4-64 operations (passes, fibre_run, fibre_run_atomic incl. bursts that fill the 8-slot '
+     'queue, fibre_kill) over 1-6 fibres whose bodies draw 0-3 inner actions (run / run_atomic / kill on any fibre, one '
+     'fibre_timeout) and a return state per dispatch, trivial time arithmetic; c01sys: every string of length 5 (quick) '
+     '/ 6 (thorough) over {run,run_atomic,kill}x{A,B,C}+pass for all 27 return policies in {Y,W,E}^3. After every '
+     'operation the dispatched fibre, START/RESUME, fibre_self, kill and run_atomic results and the returned wake-up '
+     'time are compared with the model. Non-trivial = history with a coalesced request, >= 2 atomic requests pending, '
+     'a kill that returned true, or a lone yielder beside a sleeper; distinct by hash of the recorded history.',
+     [Stage('rand', ['harness/sched_seq.c'], FIB, preset='asan', nproc=16,
+            args={'quick': ['--extra', 'c01'], 'thorough': ['--extra', 'c01']},
+            needs_min={'histories_nontrivial': 50000, 'histories_with_two_atomic_requests_pending': 10000,
+                       'histories_with_effective_kill': 10000, 'dispatches_observed': 100000}),
+      Stage('sys', ['harness/sched_seq.c'], FIB, preset='asan', nproc=16,
+            args={'quick': ['--extra', 'c01sys'], 'thorough': ['--extra', 'c01sys']},
+            needs_min={'passes': 100000}, timeout={'quick': 600, 'thorough': 7200}),
+      Stage('rand-clang-O2', ['harness/sched_seq.c'], FIB, preset='asan-O2', cc='clang', nproc=16, tiers=('thorough',),
+            args={'thorough': ['--extra', 'c01', '--cases', '6000000']})],
+     assumptions=SCHED_ASSUME,
+     exhaustive_note='sys stage: all strings of the stated length over 10 operations x 27 return policies',
+     engine='E1', technique='runtime monitoring: lock-step reference scheduler model over generated and enumerated '
+     'histories with scripted protothread fibre bodies, ASan+UBSan',
+     level_text='Exploration. Generated and enumerated histories of outside and inside operations run on the real '
+     'fibre.c in lock-step with a reference scheduler written from the statement; every dispatch (which fibre, from the '
+     'beginning or resumed), fibre_self, every kill/run_atomic result and every returned wake-up time is compared.',
+     level_note='Reasons for a dispatch are not observable, only dispatches; the model supplies the reasons. Histories '
+     'are finite; interrupt-context arrival inside scheduler calls is C06/E2.')
+prop('C02',
+     'c02: random histories of 4-64 operations over 1-6 fibres that mostly sleep (fibre_timeout with dues at now, just '
+     'past, +1, +2, small, equal to another sleeper\'s, 2^31-1 and 2^31-2 ahead), yield beside sleepers, and are run or '
+     'killed while asleep; the time base is placed within {0,1,2,50,1000} ticks of 2^32, of 2^31, just after 0, or at '
+     'random, and advances by 0, 1, exactly to a due, one before a due, a little past, or far (always within 2^31 of '
+     'every pending due). No interrupt-context requests. Non-trivial = history with >= 2 sleepers released by one pass, '
+     'or crossing a wrap point, or a cancelled sleeper; distinct by hash of the recorded history.',
+     [Stage('rand', ['harness/sched_seq.c'], FIB, preset='asan', nproc=16,
+            args={'quick': ['--extra', 'c02'], 'thorough': ['--extra', 'c02']},
+            needs_min={'histories_with_several_expiries_in_one_pass': 10000, 'histories_crossing_a_wrap_point': 10000,
+                       'histories_with_cancelled_sleeper': 10000, 'histories_with_equal_due_times': 5000,
+                       'op_fibre_timeout': 100000}),
+      Stage('rand-clang-O2', ['harness/sched_seq.c'], FIB, preset='asan-O2', cc='clang', nproc=16, tiers=('thorough',),
+            args={'thorough': ['--extra', 'c02', '--cases', '6000000']})],
+     assumptions=SCHED_ASSUME,
+     engine='E1', technique='runtime monitoring: lock-step reference scheduler model with unwrapped 64-bit virtual time '
+     'over generated histories around the 2^32 and 2^31 wrap points, ASan+UBSan',
+     level_text='Exploration. Timer-centred histories run on the real fibre.c/list.c/util.c against a model that keeps '
+     'unwrapped 64-bit time (so it never uses the cyclic comparison under test); the return value of every '
+     'fibre_timeout, the pass at which every sleeper runs, the order of same-pass expiries and the absence of '
+     'dispatches from cancelled timeouts are compared.',
+     level_note='Sampled histories; windows straddling both wrap points are forced by construction of the time base.')
+prop('C03',
+     'seq: every pass of the C01-style and C02-style histories (returned wake-up time against the model: t if the run '
+     'queue is non-empty, the dispatched fibre yielded or an interrupt-context request is pending; else the earliest '
+     'pending due time; else t+0x7fffffff). Non-trivial = as for C01/C02 histories; distinct by history hash.',
+     [Stage('seq-c01', ['harness/sched_seq.c'], FIB, preset='asan', nproc=16,
+            args={'quick': ['--extra', 'c01:c03'], 'thorough': ['--extra', 'c01:c03']},
+            needs_min={'wakeup_values_compared': 1000000, 'histories_with_wakeup_taken_from_timer': 10000}),
+      Stage('seq-c02', ['harness/sched_seq.c'], FIB, preset='asan', nproc=16,
+            args={'quick': ['--extra', 'c02:c03'], 'thorough': ['--extra', 'c02:c03']},
+            needs_min={'wakeup_values_compared': 1000000, 'histories_with_wakeup_taken_from_timer': 10000})],
+     assumptions=SCHED_ASSUME + ['in these stages only the wake-up clause is judged; a divergence in dispatch order '
+                                 'ends the history and is counted (it is C01/C02 territory)'],
+     engine='E1+E2', technique='runtime monitoring: lock-step reference model of the returned wake-up time over '
+     'generated histories; interrupt placements inside the pass by compiler-instrumented schedule points',
+     level_text='Exploration. The value returned by every fibre_scheduler_next call of the generated histories is '
+     'compared with the model (runnable work -> t, else earliest due, else t+0x7fffffff).',
+     level_note='Interrupt timing inside the pass is covered by the E2 stages (added below when built).')
